@@ -366,8 +366,13 @@ impl World {
                 let out = cmd["out"].as_str().unwrap_or("ok").to_string();
                 let tx = TASKS.lock().unwrap_or_else(|e| e.into_inner()).as_mut().and_then(|t| t.remove(&m));
                 match tx {
-                    Some(tx) => {
-                        let _ = tx.send(out.clone());
+                    Some((tx, ah)) => {
+                        if out == "abort" {
+                            // the task is cancelled from outside while it still waits (AbortHandle::abort)
+                            ah.abort();
+                        } else {
+                            let _ = tx.send(out.clone());
+                        }
                         self.task_rt.block_on(async {
                             tokio::task::yield_now().await;
                             tokio::task::yield_now().await;
